@@ -19,7 +19,7 @@ EXPLANATION = (
     'discarded.'
 )
 ASSUMPTIONS = ["Task.cancel() delivers CancelledError at the task's current await", "asyncio.current_task() identifies the caller so close() does not cancel itself"]
-FLOORS = {"C15.R1": 3, "C15.R2": 4, "C15.R3": 14, "C15.R4": 1, "C15.R5": 9, "C15.R6": 1, "C15.R7": 1, "C15.R8": 1, "C15.R9": 1}
+FLOORS = {"C15.R1": 3, "C15.R2": 4, "C15.R3": 14, "C15.R4": 1, "C15.R5": 9, "C15.R6": 1, "C15.R7": 1, "C15.R8": 1, "C15.R9": 1, "C15.R10": 1}
 
 
 def run(ctx):
@@ -42,6 +42,8 @@ def run(ctx):
 
     reuse(ctx, "C15.R9", [c07.r11], "every task the socket starts is kept in _background_tasks until it is done, which is what close() cancels (C07.R11)",
           keep=lambda o: "tracked" in o.construct or "released" in o.construct or "creates" in o.construct or o.verdict != "HOLDS")
+    reuse(ctx, "C15.R10", [c07.r7], "a subscriber callback that is running when close() cancels the read loop ends with it: callbacks are awaited directly or through gather(), not wrapped in tasks of their own (C07.R7)",
+          keep=lambda o: "callbacks-end-with-the-notifier" in o.construct or o.verdict != "HOLDS")
     reuse(ctx, "C15.R7", [c07.r2], "close() cannot fail half-way: _disconnect closes the writer, never raises and clears the connection state (C07.R2)")
     reuse(ctx, "C15.R8", [c14.r3], "after a later init() the AirTouch 4 group poll runs again: reaching CONNECTED always creates the task (C14.R3)",
           keep=lambda o: "poll-task" in o.construct or "task" in o.construct or o.verdict != "HOLDS")
@@ -283,6 +285,16 @@ def r5(ctx):
             if resets and f.cfg.all_paths_pass(b.id, [f.cfg.exit.id], [r.id for r in resets], NONEXC):
                 ok = True
     ctx.check(ok, R, "close/open_socket:pending-queue-discarded", cl.module, cl.node, "messages still queued at close() are discarded (in close(), or in open_socket() before connecting), so a later init() starts with an empty queue like a fresh object", "the queue survives close(): an unexpired command of the previous session is written as soon as the next session connects")
+    # ... and nothing is put (back) into the queue once the socket is not open: a write in flight when close() runs fails with an
+    # OSError (the writer was closed under it); its re-queue must be refused, close() has already emptied the queue
+    dr = sock_fn(ctx, "_drain_message_queue", precise=True)
+    puts = dr.calls("_message_queue.appendleft") + dr.calls("_message_queue.append") + dr.calls("_message_queue.insert")
+    for pn, pc in puts:
+        guard = False
+        for t in dr.tests(lambda e: dotted(e) == "self.is_open"):
+            if dr.cfg.dominates(dr.branch(t, "true").id, pn.id) and not [a_ for a_ in dr.awaits_between(t, pn) if a_.id != pn.id]:
+                guard = True
+        ctx.check(guard, R, "_drain_message_queue:no-requeue-after-close", dr.module, pc, "the re-queue of a failed write happens only while `self.is_open` holds (tested with no await in between)", "a write that fails because close() closed the writer under it is put back into the queue close() has just emptied; the next session transmits it")
     for modname, clsname in ((AT4_API, "AirTouch4"), (AT5_API, "AirTouch5")):
         ini = fn_of(ctx, modname, f"{clsname}.init")
         m, g = ini.module, ini.cfg
